@@ -43,14 +43,21 @@ class Esc:
         return (self.exc, self.kind, self.func, self.construct)
 
     def via(self, caller):
-        if len(self.chain) >= 8:
-            return self
+        chain = (caller,) + self.chain
+        if len(chain) > 9:
+            chain = chain[:5] + ('...',) + chain[-3:]
         return Esc(self.exc, self.kind, self.file, self.func, self.construct,
-                   self.line, (caller,) + self.chain)
+                   self.line, chain)
 
     def __repr__(self):
         return '<Esc %s %s %s:%s %s>' % (self.exc, self.kind, self.func,
                                          self.line, self.construct)
+
+
+def _put(out, e):
+    o = out.get(e.key)
+    if o is None or len(e.chain) < len(o.chain):
+        out[e.key] = e
 
 
 class Hierarchy:
@@ -121,7 +128,8 @@ class EscapeAnalysis:
 
     def __init__(self, repo, resolver=None, key_receiver=None,
                  conv_guard=None, model_none=True, model_decode=False,
-                 model_unpack=False, skip_funcs=None):
+                 model_unpack=False, skip_funcs=None, call_escapes=None,
+                 esc_filter=None):
         self.repo = repo
         self.res = resolver or Resolver(repo)
         self.h = Hierarchy(repo)
@@ -131,6 +139,8 @@ class EscapeAnalysis:
         self.model_decode = model_decode
         self.model_unpack = model_unpack
         self.skip_funcs = skip_funcs or set()
+        self.call_escapes = call_escapes   # (call, func) -> [Esc] | None
+        self.esc_filter = esc_filter       # (call, func, target, Esc) -> keep?
         self.summ = {}           # fq -> {key: Esc}
         self._facts = {}
         self._inprog = set()
@@ -202,7 +212,8 @@ class EscapeAnalysis:
     @staticmethod
     def _merge(dst, src):
         for k, v in src.items():
-            if k not in dst:
+            o = dst.get(k)
+            if o is None or len(v.chain) < len(o.chain):
                 dst[k] = v
 
     def esc_stmt(self, func, st, caught):
@@ -238,13 +249,13 @@ class EscapeAnalysis:
             if st.cause is not None:
                 self._merge(out, self.esc_expr(func, st.cause, st))
             for e in self._raised(func, st, caught):
-                out.setdefault(e.key, e)
+                _put(out, e)
             return out
         if isinstance(st, ast.Assert):
             self._merge(out, self.esc_expr(func, st.test, st))
             e = Esc('AssertionError', 'assert', func.file, func.qualname,
                     norm(st, 100), st.lineno)
-            out.setdefault(e.key, e)
+            _put(out, e)
             return out
         if hasattr(ast, 'Match') and isinstance(st, ast.Match):
             self._merge(out, self.esc_expr(func, st.subject, st))
@@ -258,7 +269,7 @@ class EscapeAnalysis:
             for t in tg:
                 for s in self.res.setter_targets(t, func):
                     for e in self.summ.get(s.fq, {}).values():
-                        out.setdefault(e.key, e.via(func.qualname))
+                        _put(out, e.via(func.qualname))
                 if self.model_unpack and isinstance(t, (ast.Tuple, ast.List)) \
                         and isinstance(st, ast.Assign) and \
                         isinstance(st.value, ast.Call) and \
@@ -266,7 +277,7 @@ class EscapeAnalysis:
                         st.value.func.attr in ('split', 'rsplit'):
                     e = Esc('ValueError', 'unpack', func.file, func.qualname,
                             norm(st, 100), st.lineno)
-                    out.setdefault(e.key, e)
+                    _put(out, e)
         return out
 
     def _esc_try(self, func, st, caught):
@@ -381,10 +392,10 @@ class EscapeAnalysis:
                     if not self._key_guarded(n, k, facts, node):
                         e = Esc('KeyError', 'key', func.file, func.qualname,
                                 norm(n), n.lineno)
-                        out.setdefault(e.key, e)
+                        _put(out, e)
         if self.model_none:
             for e in self._none_uses(func, node, stmt):
-                out.setdefault(e.key, e)
+                _put(out, e)
         return out
 
     def _key_guarded(self, sub, key, facts, root):
@@ -417,7 +428,7 @@ class EscapeAnalysis:
                 if not guarded:
                     e = Esc('ValueError', 'conv', func.file, func.qualname,
                             norm(call), call.lineno)
-                    out.setdefault(e.key, e)
+                    _put(out, e)
             return
         if self.model_decode:
             if isinstance(call.func, ast.Attribute) and \
@@ -427,7 +438,12 @@ class EscapeAnalysis:
                 if strict:
                     e = Esc('UnicodeError', 'decode', func.file,
                             func.qualname, norm(call), call.lineno)
-                    out.setdefault(e.key, e)
+                    _put(out, e)
+        if self.call_escapes is not None:
+            extra = self.call_escapes(call, func)
+            if extra:
+                for e in extra:
+                    _put(out, e)
         targets, how = self.res.resolve(call, func)
         if targets:
             self.call_stats['resolved'] += 1
@@ -442,7 +458,10 @@ class EscapeAnalysis:
                                                      norm(call.func)))
         for t in targets:
             for e in self.summ.get(t.fq, {}).values():
-                out.setdefault(e.key, e.via(func.qualname))
+                if self.esc_filter is not None and \
+                        not self.esc_filter(call, func, t, e):
+                    continue
+                _put(out, e.via(func.qualname))
 
     # -- possibly-None regex match results -------------------------------
     def _none_uses(self, func, node, stmt):
